@@ -1,9 +1,295 @@
-import PttVerif.Proofs.C12
+import PttVerif.Proofs.C12c
+/-
+C12 — Creating boards keeps .BRD, the shared cache and the indexes coherent.
+Property theorems only (helper lemmas live in Proofs/C12*.lean).
+
+Reading.  The abstract board table is the list of 256-byte headers of `.BRD` (`Rec`: the fields the creation
+path sets, FirstChild, and every other byte); a slot is vacated when its name is the empty C string.
+`specDecide` is the refusal a request meets (invalid parent, insufficient rights, malformed name, name taken up
+to letter case, boards/<c> missing, directory already there, no capacity) and `SpecStep` one request on the
+table: a refusal changes nothing, an accepted request puts `normalise req` into SOME vacated slot if there is
+one, else appends it.  `Inv s` is "the three mirrors agree": `.BRD` has exactly BNumber ≤ MAX_BOARD records,
+the shared copy of every slot is the record with FirstChild cleared (`CacheOK`), both `BSorted` prefixes are
+sorted permutations of the slots, occupied names are pairwise distinct up to case.  `sort.Sort` is any sorter
+that returns a sorted permutation (`SortSpec`): all theorems are for EVERY such sorter, every well-formed state
+(dense, vacated slots anywhere, full) and every request / list of requests.
+-/
 namespace PttVerif.C12.Props
 open PttVerif PttVerif.C12
 
-/-- what the source says at the two call sites and about the layout (regenerated data). -/
+/-! #### what the source says (regenerated data) -/
+
+def callsBefore (l : List String) (a b : String) : Bool := l.idxOf a < l.idxOf b && l.contains b
+
+/-- `addBoardRecord` hands `SubstituteRecord` the 0-based slot; `IsValid`'s loop reads the byte at its loop
+variable; in `mNewbrd` the name checks and the duplicate lookup precede `Mkdir`, `addBoardRecord` follows it and
+the directory is removed again when it fails; `NewBoard` decides the permission before `mNewbrd`. -/
 theorem source_facts :
-    Gen.NewBoard.substituteIndex = "zeroBased" ∧ Gen.NewBoard.isValidIndex = "b[idx]" := by decide
+    Gen.NewBoard.substituteIndex = "zeroBased" ∧ Gen.NewBoard.isValidIndex = "b[idx]" ∧
+    Gen.NewBoard.isValidLenLo = 2 ∧ Gen.NewBoard.isValidLenHi = Gen.NewBoard.idLen ∧
+    callsBefore Gen.NewBoard.mNewbrdCalls "brdname.IsValid" "cache.GetBid" = true ∧
+    callsBefore Gen.NewBoard.mNewbrdCalls "cache.GetBid" "types.Mkdir" = true ∧
+    callsBefore Gen.NewBoard.mNewbrdCalls "types.Mkdir" "addBoardRecord" = true ∧
+    callsBefore Gen.NewBoard.mNewbrdCalls "addBoardRecord" "os.Remove" = true ∧
+    callsBefore Gen.NewBoard.newBoardCalls "groupOp" "mNewbrd" = true ∧
+    callsBefore Gen.NewBoard.addBoardRecordCalls "cmsys.SubstituteRecord" "cache.SortBCache" = true := by decide
+
+/-- the layout the record images are built with (cross-checked against the compiled code by the `layout` op). -/
+theorem source_layout :
+    Gen.NewBoard.recSize = 256 ∧ Gen.NewBoard.maxBoard = 100 ∧
+    Gen.NewBoard.fields = [("Brdname", 0, 13), ("Title", 13, 49), ("BM", 62, 39), ("BrdAttr", 104, 4),
+      ("ChessCountry", 108, 1), ("Level", 124, 4), ("Gid", 132, 4), ("FirstChild", 144, 8)] := by decide
+
+/-! #### the name validator -/
+
+/-- for ALL byte arrays: `BoardID_t.IsValid` never faults and is the declarative predicate — a C string of 2..12
+characters, the first a letter, the rest letters, digits, `_`, `-`, `.`. -/
+theorem boardIdValid_eq_spec (b : Bytes) : isValidName b = .ok (validNameSpec b) := isValidName_eq b
+
+/-- the name that used to pass (F1) and an ordinary one. -/
+example : validNameSpec ([97, 98, 47, 46, 46, 47, 99, 100] ++ zeros 5) = false := by decide
+example : validNameSpec ([65, 108, 112, 104, 97] ++ zeros 8) = true := by decide
+
+/-! #### the name index -/
+
+/-- on every well-formed state `cache.GetBid` never faults, answers 0 exactly when no slot carries the name up
+to letter case, and otherwise a slot that does. -/
+theorem getBid_scan {s : State} (h : Inv s) (key : Bytes) :
+    ∃ b, getBid s key = .ok b ∧
+      ((b = 0 ∧ ∀ (k : Nat) (r : Rec), s.brd[k]? = some r → nameKey r.name ≠ nameKey key) ∨
+       (∃ (k : Nat) (r : Rec), s.brd[k]? = some r ∧ b = k + 1 ∧ nameKey r.name = nameKey key)) :=
+  getBid_brd h key
+
+/-! #### one request -/
+
+/-- one request on any well-formed state, for any sorter: no panic, no divergence; the answer and the new
+`.BRD` / `boards/` are those of the abstract table; the new state is well-formed again (shared copy and both
+indexes mirror the new table). -/
+theorem create_refines {srt : Sorter} (hs : SortSpec srt) {s : State} (h : Inv s) (q : Req) :
+    ∃ res, (newBoard srt s q).2 = .ok res ∧
+      SpecStep s.users s.letters s.brd s.dirs q res (newBoard srt s q).1.brd (newBoard srt s q).1.dirs ∧
+      Inv (newBoard srt s q).1 := by
+  obtain ⟨res, h1, h2, h3, _⟩ := newBoard_step hs h q
+  exact ⟨res, h1, h3, h2⟩
+
+/-- an accepted request leaves every other slot alone: `.BRD` record (all 256 bytes), shared copy and BM cache
+of every other slot are identical; the slot it took was vacated or is the one after the last; BNumber grows
+exactly on the append path and equals the number of records. -/
+theorem create_frame {srt : Sorter} (hs : SortSpec srt) {s : State} (h : Inv s) (q : Req) (b : Nat)
+    (hb : (newBoard srt s q).2 = .ok (.ok b)) :
+    1 ≤ b ∧
+    (∀ j, j ≠ b - 1 → (newBoard srt s q).1.brd[j]? = s.brd[j]? ∧ (newBoard srt s q).1.cache[j]? = s.cache[j]? ∧
+      (newBoard srt s q).1.bmcache[j]? = s.bmcache[j]?) ∧
+    (∀ r, s.brd[b - 1]? = some r → occupied r = false) ∧
+    (hasVacant s.brd = true → b - 1 < s.brd.length) ∧ (hasVacant s.brd = false → b - 1 = s.brd.length) ∧
+    (newBoard srt s q).1.bnumber = (if hasVacant s.brd then s.bnumber else s.bnumber + 1) ∧
+    (newBoard srt s q).1.brd.length = (newBoard srt s q).1.bnumber := by
+  obtain ⟨res, h1, hI, hstep, _, _, _, hacc⟩ := newBoard_step hs h q
+  rw [hb] at h1; cases h1
+  obtain ⟨hb1, ha⟩ := hacc b rfl
+  obtain ⟨_, _, _, _, _, hvac, _, hcase⟩ := hstep.accepted
+  refine ⟨hb1, fun j hj => ⟨ha.frameBrd j hj, ha.frameCache j hj, ha.frameBmc j hj⟩, hvac, ?_, ?_, ha.count, hI.len⟩
+  · intro hv
+    rcases hcase with ⟨hl, _⟩ | ⟨hnv, _, _⟩
+    · exact hl
+    · rw [hv] at hnv; cases hnv
+  · intro hv
+    rcases hcase with ⟨hl, _⟩ | ⟨_, hl, _⟩
+    · exfalso
+      have := (hasVacant_false_iff s.brd).mp hv (b - 1) _ (List.getElem?_eq_getElem hl)
+      rw [hvac _ (List.getElem?_eq_getElem hl)] at this; cases this
+    · exact hl
+
+/-
+FULL STATEMENT (false on one recorded class of requests, see `create_coherent_fails_hidden`):
+
+  theorem create_coherent … (hb : (newBoard srt s q).2 = .ok (.ok b)) :
+      s'.brd[b-1]? = some (normalise s.users q) ∧ s'.cache[b-1]? = some (shmOf (normalise s.users q)) ∧
+      s'.bmcache[b-1]? = some (parseBMList s.users (normalise s.users q).bm) ∧
+      ∀ n, nameKey n = nameKey q.name → getBid s' n = .ok b
+
+What is missing: when `postMaskWritten s.users q` — a hidden board (BRD_HIDE) created by a caller who is neither
+sysop nor one of its cached moderators — `NewBoard → LoadBoardSummary → newBoardStat` ORs BRD_POSTMASK into the
+shared copy only (pttbbs `addnewbrdstat`; known finding `coherent:cache:hidden-postmask`).  The partial theorem
+states the shared copy exactly (`newCopy`), i.e. it excludes precisely that class.
+-/
+
+/-- record = shared copy = index for an accepted request: slot `b-1` of `.BRD` is the normalised header (name,
+class and title, attributes and level by the creation rules, the requested moderators that exist), the shared
+copy is that header with FirstChild cleared — plus BRD_POSTMASK exactly when `postMaskWritten` —, the BM cache
+holds the first MAX_BMs of its moderators, and the name index resolves the requested name in ANY letter case
+to `b`. -/
+theorem create_coherent_partial {srt : Sorter} (hs : SortSpec srt) {s : State} (h : Inv s) (q : Req) (b : Nat)
+    (hb : (newBoard srt s q).2 = .ok (.ok b)) :
+    (newBoard srt s q).1.brd[b - 1]? = some (normalise s.users q) ∧
+    (newBoard srt s q).1.cache[b - 1]? = some (newCopy s.users q) ∧
+    (postMaskWritten s.users q = false → newCopy s.users q = shmOf (normalise s.users q)) ∧
+    (newBoard srt s q).1.bmcache[b - 1]? = some (parseBMList s.users (normalise s.users q).bm) ∧
+    (∀ n, nameKey n = nameKey q.name → getBid (newBoard srt s q).1 n = .ok b) := by
+  obtain ⟨res, h1, hI, hstep, _, _, _, hacc⟩ := newBoard_step hs h q
+  rw [hb] at h1; cases h1
+  obtain ⟨hb1, ha⟩ := hacc b rfl
+  obtain ⟨hv, _⟩ := hstep.accepted
+  refine ⟨ha.brd, ha.cache, fun hp => by simp [newCopy, hp], ha.bmc, ?_⟩
+  intro n hn
+  have := index_resolves hI ha.brd (occupied_normalise hv) n hn
+  rwa [Nat.sub_add_cancel hb1] at this
+
+/-- the request of the known finding: caller with PERM_BOARD (not sysop), BRD_HIDE, no moderators. -/
+def hiddenReq : Req :=
+  { user := [98, 114, 100, 109, 97, 110] ++ zeros 7, ulevel := 8209, uid := 2, cls := 1,
+    name := [72, 105, 100, 100, 101, 110] ++ zeros 7, bclass := [67, 76, 83, 32], btitle := [116], bms := none,
+    attr := 16, level := 0, chess := 0, isGroup := false }
+
+/-- the full `create_coherent` is false: whenever `hiddenReq` is accepted (any well-formed state without
+users, any sorter) the shared copy carries BRD_POSTMASK and the `.BRD` record does not. -/
+theorem create_coherent_fails_hidden {srt : Sorter} (hs : SortSpec srt) {s : State} (h : Inv s)
+    (hu : s.users = []) (b : Nat) (hb : (newBoard srt s hiddenReq).2 = .ok (.ok b)) :
+    ∃ c r, (newBoard srt s hiddenReq).1.cache[b - 1]? = some c ∧ (newBoard srt s hiddenReq).1.brd[b - 1]? = some r ∧
+      c ≠ shmOf r ∧ hasBit c.attr BRD_POSTMASK = true ∧ hasBit r.attr BRD_POSTMASK = false := by
+  obtain ⟨h1, h2, _⟩ := create_coherent_partial hs h hiddenReq b hb
+  refine ⟨_, _, h2, h1, ?_, ?_, ?_⟩ <;> rw [hu] <;> decide
+
+/-- … and it is accepted, e.g. on the empty table (so the statement above is not vacuous). -/
+example : ∃ b, (newBoard insSort (reload insSort (fresh [] [] [72] [])) hiddenReq).2 = .ok (.ok b) := by
+  have hI : Inv (reload insSort (fresh [] [] [72] [])) :=
+    inv_reload insSort_spec [] [] [72] [] (by simp) (by intro i j ri rj hi; simp at hi)
+  obtain ⟨res, h1, hstep, _⟩ := create_refines insSort_spec hI hiddenReq
+  have hd : specDecide [72] [] [] hiddenReq = none := by decide
+  have hs' : SpecStep [] [72] [] [] hiddenReq res _ _ := hstep
+  simp only [SpecStep, hd] at hs'
+  obtain ⟨k, hk, _⟩ := hs'
+  exact ⟨k + 1, by rw [h1, hk]⟩
+
+/-- a refused request — whatever the reason — has no side effect at all: `.BRD`, torn tail, shared copy,
+BNumber, both indexes, BM cache and the `boards/` tree are unchanged (the directory made before a capacity
+refusal is removed again). -/
+theorem refused_noop {srt : Sorter} (hs : SortSpec srt) {s : State} (h : Inv s) (q : Req) (res : Res)
+    (hr : (newBoard srt s q).2 = .ok res) (hno : ∀ b, res ≠ .ok b) : (newBoard srt s q).1 = s := by
+  obtain ⟨res', h1, _, _, _, _, hsame, _⟩ := newBoard_step hs h q
+  rw [hr] at h1; cases h1
+  exact hsame hno
+
+/-- each cause named by the property is a refusal: an invalid parent, insufficient rights, a malformed name, a
+name that exists in any letter case, no capacity (and the two environment refusals of `Mkdir`). -/
+theorem refusal_causes (letters : List Nat) (dirs : List Bytes) (t : List Rec) (q : Req)
+    (hc : validBid q.cls = false ∨ permitted t q = false ∨ validNameSpec q.name = false ∨
+      nameTaken t q.name = true ∨ hasLetter letters q.name = false ∨ hasDir dirs q.name = true ∨
+      (hasVacant t = false ∧ MAXB ≤ t.length)) :
+    ∃ r, specDecide letters dirs t q = some r ∧ ∀ b, r ≠ .ok b := by
+  have key : ∀ o, specDecide letters dirs t q = o → o ≠ none → ∃ r, o = some r ∧ ∀ b, r ≠ .ok b := by
+    intro o ho hne
+    cases o with
+    | none => exact absurd rfl hne
+    | some r => exact ⟨r, rfl, fun b e => specDecide_ne_ok letters dirs t q b (by rw [ho, e])⟩
+  apply key _ rfl
+  intro hnone
+  unfold specDecide at hnone
+  repeat' split at hnone
+  all_goals first | cases hnone | skip
+  rename_i h1 h2 h3 h4 h5 h6 h7
+  rcases hc with h | h | h | h | h | h | ⟨h, h'⟩ <;> simp_all
+
+/-- a refusal named by the abstract table is what `NewBoard` answers, and nothing changes. -/
+theorem refused_refines {srt : Sorter} (hs : SortSpec srt) {s : State} (h : Inv s) (q : Req) (r : Res)
+    (hd : specDecide s.letters s.dirs s.brd q = some r) :
+    newBoard srt s q = (s, .ok r) := by
+  obtain ⟨res, h1, _, hstep, _, _, hsame, _⟩ := newBoard_step hs h q
+  simp only [SpecStep, hd] at hstep
+  obtain ⟨hres, _, _⟩ := hstep
+  subst hres
+  have hno : ∀ b, res ≠ .ok b := fun b e => specDecide_ne_ok _ _ _ _ b (by rw [hd, e])
+  exact Prod.ext (hsame hno) h1
+
+/-! #### the creation rules -/
+
+/-- the normalised header: name, class/title layout, parent and chess code as requested; BRD_GROUPBOARD iff a
+group is created; BRD_CPLOG iff not; BRD_HIDE as requested; a caller without PERM_BOARD and every hidden board
+lose the post-mask bit and get level 0, otherwise both are as requested; the moderators are the requested ones
+that exist (`sanitizeBMs`). -/
+theorem normalise_rules (users : List Bytes) (q : Req) :
+    (normalise users q).name = q.name ∧
+    (normalise users q).title = copyInto 4 q.bclass ++ [32] ++
+      (if q.isGroup then [163, 85] else [161, 183]) ++ copyInto 42 q.btitle ∧
+    (normalise users q).gid = q.cls.toNat ∧ (normalise users q).chess = q.chess ∧
+    (normalise users q).bm = sanitizeBMs users q.bms ∧
+    hasBit (normalise users q).attr BRD_GROUP = q.isGroup ∧
+    hasBit (normalise users q).attr BRD_CPLOG = !q.isGroup ∧
+    hasBit (normalise users q).attr BRD_HIDE = hasBit q.attr BRD_HIDE ∧
+    hasBit (normalise users q).attr BRD_POSTMASK =
+      (hasBit q.ulevel PERM_BOARD && !hasBit q.attr BRD_HIDE && hasBit q.attr BRD_POSTMASK) ∧
+    (normalise users q).level = (if hasBit q.ulevel PERM_BOARD && !hasBit q.attr BRD_HIDE then q.level else 0) := by
+  obtain ⟨hg, hc, hh, hr, hp, hl⟩ := attr_rules q
+  refine ⟨rfl, ?_, rfl, rfl, rfl, hg, hc, hh, ?_, ?_⟩
+  · show buildTitle q = _
+    unfold buildTitle
+    cases q.isGroup <;> rfl
+  · show hasBit (buildAttr q) BRD_POSTMASK = _
+    rw [hp, hr]
+    cases hasBit q.ulevel PERM_BOARD <;> cases hasBit q.attr BRD_HIDE <;> rfl
+  · show buildLevel q = _
+    rw [hl, hr]
+    cases hasBit q.ulevel PERM_BOARD <;> cases hasBit q.attr BRD_HIDE <;> rfl
+
+/-! #### histories -/
+
+/-- any list of requests from any well-formed state: no request faults, the answers and the final `.BRD` and
+`boards/` are those of the abstract table, and the final state is well-formed (record = shared copy = index,
+BNumber = number of records). -/
+theorem create_history {srt : Sorter} (hs : SortSpec srt) {s : State} (h : Inv s) (qs : List Req) :
+    ∃ rs, results srt s qs = rs.map .ok ∧ Inv (run srt s qs) ∧
+      SpecRun s.users s.letters s.brd s.dirs qs rs (run srt s qs).brd (run srt s qs).dirs := by
+  obtain ⟨rs, h1, h2, h3, _⟩ := run_history hs qs h
+  exact ⟨rs, h1, h2, h3⟩
+
+/-- after any history every accepted request occupies one slot of its own: at the END of the history that slot
+of `.BRD` still is its normalised header, the shared copy mirrors it, the name index resolves its name in any
+letter case to it, and no other accepted request of the history got the same slot. -/
+theorem history_accepted {srt : Sorter} (hs : SortSpec srt) {s : State} (h : Inv s) (qs : List Req)
+    (i b : Nat) (q : Req) (hq : qs[i]? = some q) (hi : (results srt s qs)[i]? = some (.ok (.ok b))) :
+    1 ≤ b ∧ (run srt s qs).brd[b - 1]? = some (normalise s.users q) ∧
+    (∃ c, (run srt s qs).cache[b - 1]? = some c ∧ CacheOK c (normalise s.users q)) ∧
+    (∀ n, nameKey n = nameKey q.name → getBid (run srt s qs) n = .ok b) ∧
+    (∀ j b', j ≠ i → (results srt s qs)[j]? = some (.ok (.ok b')) → b' ≠ b) := by
+  obtain ⟨rs, hrs, hI, hrun, _⟩ := run_history hs qs h
+  have hget : ∀ (j : Nat) (r : Res), (results srt s qs)[j]? = some (Except.ok r) → rs[j]? = some r := by
+    intro j r hj
+    rw [hrs, List.getElem?_map] at hj
+    cases hx : rs[j]? with
+    | none => rw [hx] at hj; cases hj
+    | some x => rw [hx] at hj; simp only [Option.map_some, Option.some.injEq, Except.ok.injEq] at hj; rw [hj]
+  have hi' := hget i _ hi
+  obtain ⟨hb1, hfin, hocc⟩ := hrun.final hi' hq
+  refine ⟨hb1, hfin, hI.copy _ _ hfin, ?_, ?_⟩
+  · intro n hn
+    have := index_resolves hI hfin hocc n hn
+    rwa [Nat.sub_add_cancel hb1] at this
+  · intro j b' hji hj
+    have hj' := hget j _ hj
+    rcases Nat.lt_or_gt_of_ne hji with hlt | hgt
+    · exact hrun.slots_distinct hlt hj' hi'
+    · exact (hrun.slots_distinct hgt hi' hj').symm
+
+/-- after any history every board that existed before is where it was, byte for byte, and still resolves. -/
+theorem history_keeps {srt : Sorter} (hs : SortSpec srt) {s : State} (h : Inv s) (qs : List Req)
+    (k : Nat) (r : Rec) (hr : s.brd[k]? = some r) (ho : occupied r = true) :
+    (run srt s qs).brd[k]? = some r ∧ getBid (run srt s qs) r.name = .ok (k + 1) := by
+  obtain ⟨rs, _, hI, hrun, _⟩ := run_history hs qs h
+  have := hrun.keep hr ho
+  exact ⟨this, index_resolves hI this ho r.name rfl⟩
+
+/-! #### non-vacuity -/
+
+/-- a sorter with the assumed contract exists (an insertion sort). -/
+theorem sortSpec_inhabited : SortSpec insSort := insSort_spec
+
+/-- the states every history starts from are well-formed: a zeroed segment and any `.BRD` of at most MAX_BOARD
+complete records whose occupied names are distinct up to case, after `ReloadBCache` — dense, with vacated slots
+anywhere, or full. -/
+theorem reload_wellformed {srt : Sorter} (hs : SortSpec srt) (brd : List Rec) (users : List Bytes)
+    (letters : List Nat) (dirs : List Bytes) (hlen : brd.length ≤ MAXB)
+    (hd : ∀ (i j : Nat) (ri rj : Rec), brd[i]? = some ri → brd[j]? = some rj → occupied ri = true →
+      nameKey ri.name = nameKey rj.name → i = j) :
+    Inv (reload srt (fresh brd users letters dirs)) := inv_reload hs brd users letters dirs hlen hd
 
 end PttVerif.C12.Props
